@@ -202,6 +202,8 @@ def strat_mle(tier):
 RATE_LIMITS = [
     ("ll_below_truth:Weibull:gamma_free", "mle/family=Weibull", 0.20, 40),
     ("ll_below_truth_scaled:Weibull:gamma_free", "mle/family=Weibull", 0.20, 40),
+    ("equivariance_ll:Weibull", "mle/family=Weibull", 0.05, 40),
+    ("equivariance_quantile:Weibull", "mle/family=Weibull", 0.05, 40),
     ("ll_below_truth:ScipyGamma", "mle/family=ScipyGamma", 0.12, 40),
     ("ll_below_truth_scaled:ScipyGamma", "mle/family=ScipyGamma", 0.20, 40),
     ("ll_below_truth:GeneralizedGamma:user_start", "mle/family=GeneralizedGamma", 0.08, 40),
